@@ -44,6 +44,7 @@ def grid(tier, seed):
         ("hh", [2, 2, 3, 0.25]),
         ("hh", [3 + s, 1, 16]),
         ("hh", [1, 2, 1, 0.5]),
+        ("hh", [3, 1, 4, 0.333333]),  # explicit phi very close to, but not, the default 1/width
         ("hll", [7, 0]),
         ("hll", [7, 2**63 + 5 + s]),
         ("hll", [8, 2**64 - 1]),
@@ -103,9 +104,12 @@ def answers(sk, kind, uni):
                 out.append(int(sk[k]))
             except ValueError:
                 out.append(None)
+        # first an explicit threshold (the object's cache state must not matter), then the
+        # default, then 0
+        q2 = tuple(sorted((k, int(c)) for k, c in sk.query(3, 2)))
         q = tuple(sorted((k, int(c)) for k, c in sk.query(INF)))
         q0 = tuple(sorted((k, int(c)) for k, c in sk.query(INF, 0)))
-        return (tuple(out), q, q0, int(sk.n_added()), int(sk.n_records()))
+        return (tuple(out), q2, q, q0, int(sk.n_added()), int(sk.n_records()))
     return (tuple(float(sk.query(k)) for k in uni), int(sk.n_added()), int(sk.n_records()))
 
 
